@@ -65,7 +65,7 @@ func (eng *Engine) runtimeRoots() []*ssa.Function {
 	root := repoModule
 	for _, k := range []string{"(*Parser[G]).Parse", "(*Parser[G]).ParseString", "(*Parser[G]).ParseBytes", "(*Parser[G]).ParseFromLexer",
 		"(*Parser[G]).Lex", "(*Parser[G]).String", "(*Parser[G]).Lexer", "(*mappingLexerDef).Lex", "(*mappingLexerDef).Symbols", "(*mappingLexer).Next",
-		"Unquote$1", "Upper$1", "unquote", "FormatError", "(*UnexpectedTokenError).Error", "(*ParseError).Error"} {
+		"Unquote$1", "Upper$1", "unquote", "FormatError", "(*UnexpectedTokenError).Error", "(*ParseError).Error", "ParserForProduction"} {
 		add(root, k)
 	}
 	for _, k := range []string{"(*StatefulDefinition).Lex", "(*StatefulDefinition).LexString", "(*StatefulDefinition).Symbols", "(*StatefulDefinition).Rules",
